@@ -189,7 +189,10 @@ def make_sources(rng, zones, quick):
         out.append(("rand%d" % i, [(k, rng.choice(zones)) for k in keys(rng.choice([3, 7, 20, 64, 65, 100]), [2, 3, 4])]))
     if not quick:
         out.append(("10k", [(k, rng.choice(zones)) for k in keys(10000, [4, 5])]))
-        out.append(("bigpool", [(k, "Zone/" + "x" * 60 + "%05d" % i) for i, k in enumerate(keys(1500, [4]))]))
+        out.append(("bigpool", [(k, "Zone/" + "x" * 60 + "%05d" % i) for i, k in enumerate(keys(800, [4]))]))
+    # more distinct zone names than the 64 KiB name pool (16-bit offsets) can hold: what does not fit must be
+    # reported, what is in must be right
+    out.append(("overfull", [(k, "Zone/" + "x" * 60 + "%05d" % i) for i, k in enumerate(keys(1100, [4]))]))
     return out
 
 
@@ -224,6 +227,15 @@ def map_task(task):
                    (label, r.rc, r.err[-200:].decode("latin-1")), dict(source=open(src).read()[:2000]))
             return sh
         img = open(cc, "rb").read()
+        if label == "overfull":
+            # keys the compiler says it skipped are not in the map
+            import re as _re
+            dropped = set(m.group(1).decode("latin-1") for m in _re.finditer(rb"key `([^']*)' skipped", r.err or b""))
+            if not dropped:
+                sh.bad("map-compile", "map:cc:overfull-silent", "tzmap cc on %d keys x 70-byte zone names (pool > 64 KiB): no line reported "
+                       "as skipped" % len(pairs), dict(stderr=(r.err or b"")[-400:].decode("latin-1")))
+            pairs = [(k, z) for k, z in pairs if k not in dropped]
+            sh.extra["overfull_keys_reported_skipped"] += len(dropped)
         want = dict(pairs)
         present = [k for k, _ in pairs]
         absent = absent_keys(present, rng)
